@@ -247,9 +247,9 @@ def scoping_stylesheet(rng):
     a variable body; the callee prints its parameters, so a value leaking in from (or lost to) the caller's frame shows."""
     P_ = lambda *steps, **kw: path(list(steps), **kw)
     val = lambda: lit(rng.choice(["caller", "c2", "1", ""]))
-    def show():      # the callee prints both parameters
+    def show():      # the callee prints both parameters and the global gq (a top-level variable first referenced in a nested template)
         return [{"i": "text", "v": cps("[")}, {"i": "value-of", "sel": var("pa")}, {"i": "text", "v": cps("|")},
-                {"i": "value-of", "sel": var("pb")}, {"i": "text", "v": cps("]")}]
+                {"i": "value-of", "sel": var("pb")}, {"i": "text", "v": cps("|")}, {"i": "value-of", "sel": var("gq")}, {"i": "text", "v": cps("]")}]
     def param(name):
         r = rng.random()
         if r < 0.5:
@@ -312,6 +312,12 @@ def scoping_stylesheet(rng):
     else:
         templates[2]["body"] = [{"i": "lre", "name": cps("e"), "attrs": [], "body": caller_body()}]
     gvars = [{"name": "pb", "hasSel": True, "sel": lit("global"), "body": []}] if rng.random() < 0.3 else []
+    # 11.4: a top-level variable sees the root node as current node in a current node list of just the root node
+    gq = rng.choice([fn("position"), fn("last"), bin_("+", fn("position"), fn("last")), fn("count", P_(ch(T_NODE))), fn("name", P_(ch(T_ANY))), lit("g")])
+    if rng.random() < 0.3:
+        gvars.append({"name": "gq", "hasSel": False, "sel": NONE, "body": [{"i": "value-of", "sel": gq}]})
+    else:
+        gvars.append({"name": "gq", "hasSel": True, "sel": gq, "body": []})
     return {"templates": templates, "gvars": gvars, "keys": [], "strip": []}
 
 
@@ -345,6 +351,58 @@ def sorting_stylesheet(rng):
         {"rid": 2, "hasMatch": True, "match": bin_("|", P_(ch(T_NODE)), P_(at(T_ANY))), "name": "", "mode": "s", "hasPrio": False, "prio": z, "params": [], "body": show},
     ]
     return {"templates": templates, "gvars": [], "keys": [], "strip": []}
+
+
+def imports_stylesheet(rng):
+    """The imports family (2.6.2, 5.5, 5.6): modules main(1) imports A(2) then B(3); A imports A1(4).  Template rules with overlapping
+    patterns, modes and priorities are spread over the modules; bodies print the rule id, may continue with xsl:apply-imports (never
+    inside xsl:for-each), xsl:apply-templates (children; with or without parameters) or call a named template that several modules
+    define.  Import precedence, lowest first: A1 < A < B < main."""
+    P_ = lambda *steps, **kw: path(list(steps), **kw)
+    z = {"k": "fin", "neg": False, "m": 0}
+    mods = [{"id": 1, "imports": [2, 3]}, {"id": 2, "imports": [4]}, {"id": 3, "imports": []}, {"id": 4, "imports": []}]
+    if rng.random() < 0.3:
+        mods = [{"id": 1, "imports": [2]}, {"id": 2, "imports": [3, 4]}, {"id": 3, "imports": []}, {"id": 4, "imports": []}]
+    pats = [P_(ch(t_name("a"))), P_(ch(t_name("b"))), P_(ch(T_ANY)), P_(ch(T_NODE)), P_(ch(T_TEXT)), P_(ch(t_name("a")), ch(t_name("b"))),
+            bin_("|", P_(ch(t_name("a"))), P_(ch(t_name("c")))), P_(ch(T_ANY, P_(at(T_ANY)))), P_(ch(t_name("b"), num(1)))]
+    templates, rid = [], 0
+    def tag(txt):
+        return {"i": "text", "v": cps(txt)}
+    def cont(mode, in_main):
+        r = rng.random()
+        if r < 0.45:
+            return [{"i": "apply-imports"}]
+        if r < 0.7:
+            ps = [{"name": "pa", "hasSel": True, "sel": lit("w"), "body": []}] if rng.random() < 0.4 else []
+            return [{"i": "apply-templates", "hasSel": False, "sel": NONE, "mode": mode, "sorts": [], "params": ps}]
+        if r < 0.8:
+            return [{"i": "call-template", "name": "nt", "params": []}]
+        if r < 0.9:
+            return [{"i": "lre", "name": cps("w"), "attrs": [], "body": [{"i": "apply-imports"}]}, {"i": "apply-templates", "hasSel": False, "sel": NONE, "mode": mode, "sorts": [], "params": []}]
+        return []
+    for mid in (1, 2, 3, 4):
+        for _ in range(rng.choice([1, 2, 2, 3])):
+            rid += 1
+            mode = rng.choice(["", "", "m"])
+            pr = rng.choice([None, None, None, -8, 0, 4, 8])
+            params = [{"name": "pa", "hasSel": True, "sel": lit("d%d" % rid), "body": []}] if rng.random() < 0.4 else []
+            body = [tag("[%d" % rid)] + ([{"i": "value-of", "sel": var("pa")}] if params else []) + [tag(":")] + cont(mode, mid == 1) + [tag("]")]
+            templates.append({"rid": rid, "hasMatch": True, "match": rng.choice(pats), "name": "", "mode": mode, "hasPrio": pr is not None,
+                              "prio": {"k": "fin", "neg": (pr or 0) < 0, "m": abs(pr or 0)}, "params": params, "body": body, "mod": mid})
+        if rng.random() < 0.5:
+            rid += 1
+            templates.append({"rid": rid, "hasMatch": False, "match": NONE, "name": "nt", "mode": "", "hasPrio": False, "prio": z, "params": [],
+                              "body": [tag("<nt%d>" % mid)], "mod": mid})
+    if not any(t["name"] == "nt" for t in templates):
+        rid += 1
+        templates.append({"rid": rid, "hasMatch": False, "match": NONE, "name": "nt", "mode": "", "hasPrio": False, "prio": z, "params": [],
+                          "body": [tag("<nt>")], "mod": rng.choice([1, 2, 3, 4])})
+    rid += 1
+    start = [{"i": "apply-templates", "hasSel": False, "sel": NONE, "mode": "", "sorts": [], "params": []},
+             {"i": "lre", "name": cps("m"), "attrs": [], "body": [{"i": "apply-templates", "hasSel": True, "sel": P_(step("descendant", T_ANY, abbr=False)), "mode": "m", "sorts": [], "params": []}]}]
+    templates.append({"rid": rid, "hasMatch": True, "match": P_(abs_=True), "name": "", "mode": "", "hasPrio": False, "prio": z, "params": [],
+                      "body": [{"i": "lre", "name": cps("out"), "attrs": [], "body": start}], "mod": 1})
+    return {"templates": templates, "gvars": [], "keys": [], "strip": [], "mods": mods}
 
 
 # ------------------------------------------------------------------------------------------ rendering
@@ -409,6 +467,8 @@ def r_instr(x):
         return "<xsl:apply-templates%s>%s%s</xsl:apply-templates>" % (a, r_sorts(x["sorts"]), "".join(r_binding("with-param", b) for b in x["params"]))
     if i == "call-template":
         return '<xsl:call-template name="%s">%s</xsl:call-template>' % (x["name"], "".join(r_binding("with-param", b) for b in x["params"]))
+    if i == "apply-imports":
+        return "<xsl:apply-imports/>"
     if i == "copy":
         return "<xsl:copy>%s</xsl:copy>" % r_body(x["body"])
     if i == "copy-of":
@@ -430,33 +490,56 @@ def r_instr(x):
     raise ValueError(i)
 
 
+def r_template(t):
+    a = ""
+    if t["hasMatch"]:
+        a += " match=%s" % quoteattr(xpgen.render(t["match"]))
+    if t["name"]:
+        a += ' name="%s"' % t["name"]
+    if t["mode"]:
+        a += ' mode="%s"' % t["mode"]
+    if t["hasPrio"]:
+        m = t["prio"]["m"]
+        a += ' priority="%s%s"' % ("-" if t["prio"]["neg"] else "", xpgen.num_text(m))
+    return "<xsl:template%s>%s%s</xsl:template>" % (a, "".join(r_binding("param", b) for b in t["params"]), r_body(t["body"]))
+
+
+def module_file(mid):
+    return "main.xsl" if mid == 1 else "m%d.xsl" % mid
+
+
+def render_modules(ss):
+    """{file name: text}: main.xsl is the principal module (id 1); module k > 1 is m<k>.xsl"""
+    mods = ss.get("mods") or [{"id": 1, "imports": []}]
+    out = {}
+    for m in mods:
+        lines = ['<xsl:stylesheet version="1.0" %s>' % XSLNS]
+        for im in m["imports"]:
+            lines.append('<xsl:import href="%s"/>' % module_file(im))
+        if m["id"] == 1:
+            for k in ss.get("keys", []):
+                lines.append('<xsl:key name="%s" match=%s use=%s/>' % (k["name"], quoteattr(xpgen.render(k["match"])), quoteattr(xpgen.render(k["use"]))))
+            for d in ss.get("strip", []):
+                lines.append('<xsl:%s-space elements="%s"/>' % ("strip" if d["strip"] else "preserve", d["name"]))
+            for g in ss["gvars"]:
+                lines.append(r_binding("variable", g))
+        for t in ss["templates"]:
+            if t.get("mod", 1) == m["id"]:
+                lines.append(r_template(t))
+        lines.append("</xsl:stylesheet>")
+        out[module_file(m["id"])] = "\n".join(lines) + "\n"
+    return out
+
+
 def render(ss):
-    lines = ['<xsl:stylesheet version="1.0" %s>' % XSLNS]
-    for k in ss.get("keys", []):
-        lines.append('<xsl:key name="%s" match=%s use=%s/>' % (k["name"], quoteattr(xpgen.render(k["match"])), quoteattr(xpgen.render(k["use"]))))
-    for d in ss.get("strip", []):
-        lines.append('<xsl:%s-space elements="%s"/>' % ("strip" if d["strip"] else "preserve", d["name"]))
-    for g in ss["gvars"]:
-        lines.append(r_binding("variable", g))
-    for t in ss["templates"]:
-        a = ""
-        if t["hasMatch"]:
-            a += " match=%s" % quoteattr(xpgen.render(t["match"]))
-        if t["name"]:
-            a += ' name="%s"' % t["name"]
-        if t["mode"]:
-            a += ' mode="%s"' % t["mode"]
-        if t["hasPrio"]:
-            m = t["prio"]["m"]
-            a += ' priority="%s%s"' % ("-" if t["prio"]["neg"] else "", xpgen.num_text(m))
-        lines.append("<xsl:template%s>%s%s</xsl:template>" % (a, "".join(r_binding("param", b) for b in t["params"]), r_body(t["body"])))
-    lines.append("</xsl:stylesheet>")
-    return "\n".join(lines) + "\n"
+    """the principal module's text (the whole stylesheet when there are no imports)"""
+    return render_modules(ss)["main.xsl"]
 
 
 def spec_stylesheet(ss):
     """the stylesheet as XSLTSem.tla sees it"""
-    out = spec_form({"templates": ss["templates"], "gvars": ss["gvars"]})
+    out = spec_form({"templates": [dict(t, mod=t.get("mod", 1)) for t in ss["templates"]], "gvars": ss["gvars"]})
+    out["mods"] = ss.get("mods") or [{"id": 1, "imports": []}]
     out["keys"] = [{"name": cps(k["name"]), "match": spec_form(k["match"]), "use": spec_form(k["use"])} for k in ss.get("keys", [])]
     out["strip"] = [{"strip": d["strip"], "prec": 1,
                      "test": {"t": "any"} if d["name"] == "*" else {"t": "name", "uri": [], "local": cps(d["name"])}} for d in ss.get("strip", [])]
